@@ -6,7 +6,7 @@ unrelated term), plus a few base terms that are parents of equation sides."""
 import json, random, copy
 from gen import SIG_T
 
-LEAVES = [("f", 2), ("p", 2), ("v", 1), ("c", 0), ("d", 0), ("f3", 3)]
+LEAVES = [("f", 2), ("p", 2), ("v", 1), ("c", 0), ("d", 0), ("f3", 3), ("p3", 3)]
 NAMES = [1, 2, 3]
 
 def leaf(rng):
@@ -16,9 +16,10 @@ def leaf(rng):
 def term(rng, depth):
     if depth == 0 or rng.random() < 0.35:
         return leaf(rng)
-    op = rng.choice(["g", "h", "lam", "let", "k", "sum"])
+    op = rng.choice(["g", "h", "lam", "let", "k", "sum", "g", "h", "w", "wb"])
     nsl, binders = SIG_T[op]
-    return {"op": op, "sl": [], "ch": [{"bd": [rng.choice(NAMES) for _ in range(nb)], "t": term(rng, depth - 1)} for nb in binders]}
+    return {"op": op, "sl": [rng.choice(NAMES) for _ in range(nsl)],
+            "ch": [{"bd": [rng.choice(NAMES) for _ in range(nb)], "t": term(rng, depth - 1)} for nb in binders]}
 
 def ren(t, m):
     return {"op": t["op"], "sl": [m.get(x, x) for x in t["sl"]],
@@ -38,10 +39,15 @@ def _names(t):
 
 def vary(rng, t, pool):
     r = rng.random()
-    if r < 0.35:                       # bijective renaming of all names (symmetries)
+    if r < 0.2:                        # bijective renaming of all names (symmetries)
         p = NAMES[:]
         rng.shuffle(p)
         return ren(t, dict(zip(NAMES, p)))
+    if r < 0.3:                        # one transposition (a second generator next to an earlier one)
+        a, b = rng.sample(NAMES, 2)
+        return ren(t, {a: b, b: a})
+    if r < 0.35:                       # self reference with ROTATED names
+        return {"op": "g", "sl": [], "ch": [{"bd": [], "t": ren(t, {1: 2, 2: 3, 3: 1})}]}
     if r < 0.55:                       # rename ONE name to another / to a spare one (redundancy)
         a, b = rng.sample(NAMES, 2)
         return ren(t, {a: b})
@@ -76,13 +82,16 @@ def universe(seed, i):
         if json.dumps(a, sort_keys=True) != json.dumps(b, sort_keys=True):
             eqs.append([ti(a), ti(b)])
     base = []
-    for _ in range(rng.choice([0, 1, 2, 3])):
+    for _ in range(rng.choice([0, 1, 2, 3, 4])):
         a = rng.choice(pool)
         par = rng.choice([
             {"op": "g", "sl": [], "ch": [{"bd": [], "t": a}]},
             {"op": "h", "sl": [], "ch": [{"bd": [], "t": a}, {"bd": [], "t": ren(a, {1: 2, 2: 1})}]},
             {"op": "lam", "sl": [], "ch": [{"bd": [rng.choice(NAMES)], "t": a}]},
-            {"op": "h", "sl": [], "ch": [{"bd": [], "t": a}, {"bd": [], "t": {"op": "v", "sl": [rng.choice(NAMES)], "ch": []}}]}])
+            {"op": "h", "sl": [], "ch": [{"bd": [], "t": a}, {"bd": [], "t": {"op": "v", "sl": [rng.choice(NAMES)], "ch": []}}]},
+            {"op": "h", "sl": [], "ch": [{"bd": [], "t": a}, {"bd": [], "t": a}]},                       # the same class twice
+            {"op": "g", "sl": [], "ch": [{"bd": [], "t": {"op": "g", "sl": [], "ch": [{"bd": [], "t": a}]}}]},   # grandparent
+            {"op": "w", "sl": [rng.choice(NAMES)], "ch": [{"bd": [], "t": a}]}])                           # slot after the child
         base.append(ti(par))
     # keep the ground universe small: estimate = sum over distinct subterms of the number of images
     def nimg(t):
